@@ -89,5 +89,62 @@ pub fn run_job(line: &str) -> String {
         };
         results.insert(q.to_string(), v);
     }
-    json!({"id": id, "error": null, "results": results, "prio": prio}).to_string()
+    // goals: parse + lower each against the program (if it lowers)
+    let mut goal_results: Vec<Value> = Vec::new();
+    if let Some(goals) = job["goals"].as_array() {
+        let db = ChalkDatabase::with(text, choice);
+        let prog = catch_unwind(AssertUnwindSafe(|| db.program_ir()));
+        for g in goals {
+            let gt = g.as_str().unwrap_or("");
+            let r = match &prog {
+                Ok(Ok(program)) => {
+                    let program = program.clone();
+                    match catch_unwind(AssertUnwindSafe(|| {
+                        chalk_integration::tls::set_current_program(&program, || {
+                            chalk_parse::parse_goal(gt)
+                                .map_err(|e| format!("parse: {}", e))
+                                .and_then(|g| chalk_integration::lowering::lower_goal(&*g, &*program).map(|_| ()).map_err(|e| format!("lower: {}", e)))
+                        })
+                    })) {
+                        Ok(Ok(())) => json!({"r": "ok", "text": ""}),
+                        Ok(Err(e)) => json!({"r": "err", "text": e}),
+                        Err(p) => json!({"r": "panic", "text": ptext(p)}),
+                    }
+                }
+                _ => json!({"r": "skip", "text": "program does not lower"}),
+            };
+            goal_results.push(r);
+        }
+    }
+    json!({"id": id, "error": null, "results": results, "prio": prio, "goals": goal_results}).to_string()
+}
+
+/// Mode `parse`: {"id","items":[{"text","as":"program"|"goal"}]} -> results [{"r":"ok"|"err"|"panic","text"}]
+pub fn run_parse_job(line: &str) -> String {
+    let job: Value = match serde_json::from_str(line) {
+        Ok(v) => v,
+        Err(e) => return json!({"id": null, "error": format!("bad job: {}", e)}).to_string(),
+    };
+    let empty = vec![];
+    let res: Vec<Value> = job["items"]
+        .as_array()
+        .unwrap_or(&empty)
+        .iter()
+        .map(|it| {
+            let t = it["text"].as_str().unwrap_or("");
+            let as_goal = it["as"].as_str() == Some("goal");
+            match catch_unwind(AssertUnwindSafe(|| {
+                if as_goal {
+                    chalk_parse::parse_goal(t).map(|_| ()).map_err(|e| e.to_string())
+                } else {
+                    chalk_parse::parse_program(t).map(|_| ()).map_err(|e| e.to_string())
+                }
+            })) {
+                Ok(Ok(())) => json!({"r": "ok"}),
+                Ok(Err(e)) => json!({"r": "err", "text": e.chars().take(60).collect::<String>()}),
+                Err(p) => json!({"r": "panic", "text": ptext(p)}),
+            }
+        })
+        .collect();
+    json!({"id": job["id"], "error": null, "results": res}).to_string()
 }
